@@ -26,6 +26,26 @@ fn atomic_point(op: &'static str, addr: usize) {
     }
 }
 
+/// Callback invoked before a vring state lock is acquired: (`site`, predicate telling whether the
+/// lock could be taken right now).
+pub type RingLockPointFn = dyn Fn(&'static str, &dyn Fn() -> bool) + Send + Sync;
+
+static RING_LOCK_POINT: OnceLock<Box<RingLockPointFn>> = OnceLock::new();
+
+/// Register the process wide ring-lock callback (first registration wins).
+pub fn set_ring_lock_point(cb: Box<RingLockPointFn>) -> bool {
+    RING_LOCK_POINT.set(cb).is_ok()
+}
+
+/// Called by `VringMutex` / `VringRwLock` before they take their state lock; a no-op unless a
+/// callback is registered.
+#[inline]
+pub(crate) fn ring_lock_point(site: &'static str, ready: &dyn Fn() -> bool) {
+    if let Some(cb) = RING_LOCK_POINT.get() {
+        cb(site, ready);
+    }
+}
+
 /// Drop-in replacement for `std::sync::atomic::AtomicU8` used by the dirty-log bitmap.
 #[repr(transparent)]
 #[derive(Debug, Default)]
